@@ -155,6 +155,11 @@ def parse_template(text, tmpl_name):
                 segs.append(("text", "\n".join(buf))); buf = []
             f = [x.strip() for x in s[len("//@leaf_type "):].split(" :: ")]
             segs.append(("leaf_type", {"file": f[0], "macro": f[1], "type": f[2], "tags": f[3].split() if len(f) > 3 else [], "tmpl": tmpl_name}))
+        elif s.startswith("//@leaf_decodable "):
+            if buf:
+                segs.append(("text", "\n".join(buf))); buf = []
+            f = [x.strip() for x in s[len("//@leaf_decodable "):].split(" :: ")]
+            segs.append(("leaf_decodable", {"file": f[0], "macro": f[1], "type": f[2], "tags": f[3].split() if len(f) > 3 else [], "tmpl": tmpl_name}))
         elif s.startswith("//@tagged "):
             buf.append(l)
         elif s.startswith("//@"):
@@ -649,6 +654,7 @@ def instantiate_fn(fs, item, em):
                     continue
                 c = cand[cord - 1]
             names = []
+            pats = []
             for i, (a, b) in enumerate(c["params"], 1):
                 ptoks = toks[a:b]
                 nm = ptoks[0].text
@@ -656,6 +662,12 @@ def instantiate_fn(fs, item, em):
                     if len(ptoks) == 1 and nm == "_":
                         nm = "_p%d" % i
                         log.append("closure %s param %d: `_` renamed to %s (Verus rejects `_` closure params)" % (n, i, nm))
+                    elif ptoks[0].text == "(" and ptoks[-1].text == ")":
+                        # R-closure-param-pattern: a tuple-pattern parameter gets a name; the pattern is bound by a `let`
+                        # at the start of the closure body
+                        nm = "__cp%d" % i
+                        pats.append("let %s = %s;" % (text[ptoks[0].start:ptoks[-1].end], nm))
+                        log.append("closure %s param %d: tuple pattern bound by a let at the start of the closure body" % (n, i))
                     else:
                         raise GenError("%s: closure %s has a pattern parameter; unsupported" % (fnkey, n))
                 if nm == "_":
@@ -693,8 +705,11 @@ def instantiate_fn(fs, item, em):
                 hdr_end = b2.end
             if c["block"]:
                 edits.append((b1.start, hdr_end, header + ctext))
+                if pats:
+                    bs = toks[c["body_start"]]
+                    edits.append((bs.end, bs.end, " " + " ".join(pats)))
             else:
-                edits.append((b1.start, hdr_end, header + ctext + "{ "))
+                edits.append((b1.start, hdr_end, header + ctext + "{ " + " ".join(pats) + " "))
                 edits.append((toks[c["body_end"]].end, toks[c["body_end"]].end, " }"))
             c["_annotated"] = True
         # a closure that was not there when the contracts were written and got no contract (not even through the any/all
@@ -933,7 +948,8 @@ def instantiate_fn(fs, item, em):
                 k = lo
                 while k + 7 < hi:
                     tt = [toks[k + j].text for j in range(0, 7)]
-                    if tt == [".", "into_iter", "(", ")", ".", "fold", "("]:
+                    if tt in ([".", "into_iter", "(", ")", ".", "fold", "("], [".", "iter", "(", ")", ".", "fold", "("]):
+                        itm = tt[1]
                         cnt += 1
                         if cnt == max(n, 1):
                             r = recv_start(toks, k)
@@ -961,11 +977,11 @@ def instantiate_fn(fs, item, em):
                                     inv.append("    %s,  /*@ob %s*/" % (cexpr, obid))
                                     em._pending.append({"id": obid, "kind": "loop-invariant", "fn": fnkey,
                                                         "tags": [t for t in fs.tags if t != "C16"], "text": cexpr, "marker": obid})
-                            edits.append((toks[r].start, toks[k + 6].end, "{ let __src = %s.into_iter(); let mut __acc = " % recv))
+                            edits.append((toks[r].start, toks[k + 6].end, "{ let __src = %s.%s(); let mut __acc = " % (recv, itm)))
                             edits.append((toks[comma].start, toks[comma].end, "; let __f = "))
                             edits.append((toks[fclose].start, toks[fclose].end,
                                           "; for __x in %s: __src\n" % it + "\n".join("                " + x for x in inv) +
-                                          "\n            { %s __acc = __f(__acc, __x); } __acc }" % kws.get("body", "")))
+                                          "\n            { %s __acc = __f(__acc, __x); %s } __acc }" % (kws.get("body", ""), kws.get("body_end", ""))))
                             log.append("R-fold: `%s.into_iter().fold(INIT, CL)` rewritten to `let mut acc = INIT; for x in %s { acc = CL(acc, x); } acc` (line %d)" % (
                                 recv, recv, item.line0 + text.count("\n", 0, toks[k].start)))
                             found = True
@@ -1023,6 +1039,54 @@ def instantiate_fn(fs, item, em):
                                           "\n            { %s %s } %s %s }" % (kws.get("body", ""), step, kws.get("post", ""), fin)))
                             log.append("R-%s-collect: `%s.into_iter().%s(CL).collect()` rewritten to an explicit loop calling CL (line %d)" % (
                                 meth, recv, meth, item.line0 + text.count("\n", 0, toks[k].start)))
+                            found = True
+                            break
+                    k += 1
+                if not found:
+                    _gone("%s rule: occurrence %d not found" % (rule, n))
+            elif rule == "iter_map_collect_set":
+                # RECV.iter().map(CL).collect()   where the collect target is a HashSet<T>:
+                # { let __f = CL; let mut __out: HashSet<T> = HashSet::new(); for __x in it: RECV.iter() { __out.insert(__f(__x)); } __out }
+                # (definitions of Iterator::map and FromIterator for HashSet)
+                cnt = 0
+                found = False
+                k = lo
+                while k + 7 < hi:
+                    tt = [toks[k + j].text for j in range(0, 7)]
+                    if tt == [".", "iter", "(", ")", ".", "map", "("]:
+                        cnt += 1
+                        if cnt == max(n, 1):
+                            r = recv_start(toks, k)
+                            while toks[r].text in ("&", "*"):     # a leading `&` applies to the whole chain, not to the receiver
+                                r += 1
+                            recv = text[toks[r].start:toks[k - 1].end]
+                            fclose = match_close(toks, k + 6)
+                            j = fclose + 1
+                            if not (toks[j].text == "." and toks[j + 1].text == "collect"):
+                                raise GenError("%s: %s rule: .collect expected" % (fnkey, rule))
+                            j += 2
+                            if toks[j].text == "::":
+                                j = angle_skip(toks, j + 1)
+                            if not (toks[j].text == "(" and toks[j + 1].text == ")"):
+                                raise GenError("%s: %s rule: `()` expected after collect" % (fnkey, rule))
+                            endtok = toks[j + 1]
+                            it = kws.get("iter", "__it")
+                            ety = pos[0] if pos else "_"
+                            inv = []
+                            if kws.get("invariant"):
+                                inv.append("invariant")
+                                for ci, cexpr in enumerate(split_top(kws["invariant"]), 1):
+                                    obid = "%s#mcs%dinv%d" % (fnkey, cnt, ci)
+                                    inv.append("    %s,  /*@ob %s*/" % (cexpr, obid))
+                                    em._pending.append({"id": obid, "kind": "loop-invariant", "fn": fnkey,
+                                                        "tags": [t for t in fs.tags if t != "C16"], "text": cexpr, "marker": obid})
+                            edits.append((toks[r].start, toks[k + 6].end, "{ let __src = %s.iter(); let __f = " % recv))
+                            edits.append((toks[fclose].start, endtok.end,
+                                          "; let mut __out: HashSet<%s> = HashSet::new(); for __x in %s: __src\n" % (ety, it) +
+                                          "\n".join("                " + x for x in inv) +
+                                          "\n            { %s __out.insert(__f(__x)); %s } %s __out }" % (kws.get("body", ""), kws.get("body_end", ""), kws.get("post", ""))))
+                            log.append("R-iter-map-collect-set: `%s.iter().map(CL).collect()` into a HashSet rewritten to an explicit loop inserting CL(x) (line %d)" % (
+                                recv, item.line0 + text.count("\n", 0, toks[k].start)))
                             found = True
                             break
                     k += 1
@@ -1619,6 +1683,53 @@ def emit_kvconsts(d, repo, em):
             n += 1
     em.rewrites.append("%s: R-kv-const: %d known_value_constant! invocations expanded to their definition" % (d["file"], n))
 
+
+def emit_leaf_decodable(d, repo, em):
+    """R-macro-expand: `impl_envelope_decodable!(T);` expanded from its macro_rules definition
+    (`impl TryFrom<Envelope> for T { fn try_from(envelope) { let cbor = envelope.try_leaf()?; cbor.try_into() } }`) with the
+    contract: a leaf is handed to T's CBOR decoder, anything else is NotLeaf."""
+    sf = repo.file(d["file"])
+    ty = d["type"]
+    mdef = [it for it in sf.items if it.kind == "macro" and it.name == "macro_rules" and ("macro_rules! %s" % d["macro"]) in it.text.replace("macro_rules !", "macro_rules!")]
+    if not mdef:
+        raise GenError("%s: macro_rules! %s not found" % (d["file"], d["macro"]))
+    inv = [it for it in sf.items if it.kind == "macro" and it.name == d["macro"] and re.sub(r"\s+", "", it.text) in ("%s!(%s);" % (d["macro"], ty), "%s!(dcbor::%s);" % (d["macro"], ty))]
+    if not inv:
+        raise GenError("%s: invocation %s!(%s) not found" % (d["file"], d["macro"], ty))
+    mtext = mdef[0].text
+    toks = code_toks(lex(mtext))
+    k = next(i for i, t in enumerate(toks) if t.text == "=>")
+    bo = k + 1
+    bc = match_close(toks, bo)
+    body = mtext[toks[bo].end:toks[bc].start]
+    pm = re.search(r"\(\s*\$(\w+)\s*:\s*ty\s*\)", mtext)
+    if not pm:
+        raise GenError("%s: macro %s: unexpected matcher" % (d["file"], d["macro"]))
+    body = body.replace("$" + pm.group(1), ty)
+    off = body.index("fn try_from")
+    sh = parse_fn(body[off:], "try_from")
+    rt0, rt1 = off + sh.ret_start, off + sh.ret_end
+    fnkey = "%s:%s!(%s)::try_from" % (d["file"], d["macro"], ty)
+    ob1, ob2 = fnkey + "#ens1", fnkey + "#ens2"
+    contract = ("\n        ensures\n            *envelope.0 matches EnvelopeCase::Leaf { cbor, digest } ==> call_ensures(<%s as TryFrom<CBOR>>::try_from, (cbor,), r),  /*@ob %s*/\n"
+                "            !(*envelope.0 is Leaf) ==> is_env_err(r, EnvelopeError::NotLeaf),  /*@ob %s*/\n    " % (ty, ob1, ob2))
+    new_body = body[:rt0] + "(r: %s)" % body[rt0:rt1] + body[rt1:off + sh.sig_end] + contract + body[off + sh.sig_end:]
+    em.add("    // @src %s:%d %s  (expanded from macro_rules! %s at line %d)" % (sf.rel, inv[0].line0, inv[0].text.strip(), d["macro"], mdef[0].line0))
+    em.add("impl vstd::std_specs::convert::TryFromSpecImpl<Envelope> for %s {" % ty)
+    em.add("    open spec fn obeys_try_from_spec() -> bool { false }")
+    em.add("    uninterp spec fn try_from_spec(e: Envelope) -> Result<%s, Error>;" % ty)
+    em.add("}")
+    start = em.lineno
+    em.add(new_body.strip("\n"))
+    end = em.lineno - 1
+    for ln in range(start, end + 1):
+        for obid, txt in ((ob1, "leaf ==> T::try_from(cbor)"), (ob2, "not a leaf ==> NotLeaf")):
+            if "/*@ob %s*/" % obid in em.lines[ln - 1]:
+                em.obs[obid] = {"id": obid, "kind": "ensures", "fn": fnkey, "tags": list(d["tags"]), "text": txt, "lines": [ln]}
+    em.fn_ranges.append((start, end, fnkey, list(d["tags"])))
+    em.functions.append({"key": fnkey, "file": sf.rel, "lines": [inv[0].line0, inv[0].line1], "sha256": mdef[0].sha, "tags": list(d["tags"]),
+                         "gen_lines": [start, end], "rewrites": ["R-macro-expand: %s!(%s)" % (d["macro"], ty)], "name": "try_from", "header": "macro"})
+    em.rewrites.append("%s: R-macro-expand: %s!(%s) expanded from its macro_rules definition" % (sf.rel, d["macro"], ty))
 
 def emit_leaf_type(d, repo, em):
     """R-macro-expand: `impl_envelope_encodable!(T);` expanded from the macro_rules definition in the same file
